@@ -15,7 +15,8 @@ RULE = ("dumps written from generated Voronoi/arc tissues (3..60 cells) and sub-
         "the last loop line or on its own line, density present / absent / mixed, optional 'original n', extra unattached "
         "vertices and edges, coordinates scaled 1e-3..1e6 in %g / fixed / scientific / repr notation; plus every shipped dump "
         "against a regex re-parse. distinct = (cells, vertices, wrap, density mode, orphans, area layout, number style); "
-        "non-trivial = at least one face")
+        "non-trivial = at least one face"
+        ' Added after the seeded rounds: faces / bodies in permuted file order, zero densities, a second dump written to the same path in one process.')
 MIN_DECISIVE = {"quick": 80, "thorough": 1200}
 REQUIRED_COUNTERS = ["post:create_lattice", "vertices:compared", "edges:compared", "cells:compared", "gt:compared"]
 TECHNIQUE = "round-trip oracle: independent serialiser -> real parser -> icontract post-condition comparing with the generating records"
